@@ -299,12 +299,7 @@ func (p *provider) setSingleton(key instanceKey, instance any) {
 		return
 	}
 
-	p.singletons.Store(key, instance)
-
-	// Track key for iteration during disposal
-	p.singletonKeysMu.Lock()
-	p.singletonKeys = append(p.singletonKeys, key)
-	p.singletonKeysMu.Unlock()
+	p.publishSingleton(key, instance)
 
 	// Track if disposable
 	if d, ok := disposableOf(instance); ok {
@@ -312,6 +307,17 @@ func (p *provider) setSingleton(key instanceKey, instance any) {
 		p.disposables = append(p.disposables, d)
 		p.disposablesMu.Unlock()
 	}
+}
+
+// publishSingleton makes a singleton instance available under key without
+// tracking it for disposal.
+func (p *provider) publishSingleton(key instanceKey, instance any) {
+	p.singletons.Store(key, instance)
+
+	// Track key for iteration during disposal
+	p.singletonKeysMu.Lock()
+	p.singletonKeys = append(p.singletonKeys, key)
+	p.singletonKeysMu.Unlock()
 }
 
 // registers reports whether the descriptor is part of this provider's registry.
